@@ -30,9 +30,9 @@ pub struct Bounds {
 }
 pub fn bounds(quick: bool) -> Bounds {
     if quick {
-        Bounds { tier: "quick", hay_len: 3, pat_len: 4, needle_len: 2, bin_len: 3, re_len: 4, ls_hay_len: 2, ls_pat_len: 3, like_long: None }
+        Bounds { tier: "quick", hay_len: 3, pat_len: 4, needle_len: 2, bin_len: 3, re_len: 4, ls_hay_len: 1, ls_pat_len: 3, like_long: None }
     } else {
-        Bounds { tier: "thorough", hay_len: 3, pat_len: 5, needle_len: 3, bin_len: 4, re_len: 5, ls_hay_len: 2, ls_pat_len: 4, like_long: Some((4, 3)) }
+        Bounds { tier: "thorough", hay_len: 3, pat_len: 5, needle_len: 3, bin_len: 4, re_len: 5, ls_hay_len: 2, ls_pat_len: 3, like_long: Some((4, 3)) }
     }
 }
 
